@@ -265,7 +265,7 @@ func (c *countingAnnouncer) Announce(d core.Digest, h core.InfoHash, complete bo
 				m.witness = map[string]interface{}{
 					"signature": "torrent-dropped-out-of-announce-rotation", "peer": m.agent,
 					"pacer_announces_in_a_row_without_a_blob_announce": m.streak,
-					"blob_announces_so_far": m.aCalls, "pacer_announces_so_far": m.pReturns,
+					"blob_announces_so_far":                            m.aCalls, "pacer_announces_so_far": m.pReturns,
 					"premises": "blob torrent incomplete, 0 active conns, no blob announce in flight at each of those pacer announces",
 				}
 			}
@@ -678,7 +678,7 @@ func (s *swarm) startSeeder(name string, corrupt bool) (*peer, error) {
 	if err != nil {
 		return nil, err
 	}
-	var ta storage.TorrentArchive = agentstorage.NewTorrentArchive(tally.NoopScope, cads, fakeMetaInfoClient{s.mi})
+	var ta storage.TorrentArchive = agentstorage.NewTorrentArchive(tally.NoopScope, cads, fakeMetaInfoClient{mi: s.mi})
 	if err := s.writeFull(ta); err != nil {
 		return nil, err
 	}
